@@ -159,6 +159,7 @@ class Emitter:
         self.ec_consts = []
         self.lib_enums = []
         self.extra_fns = {}
+        self.skipped_lambdas = []
         self.lambdas_of = {}
         self.lambda_types = {}
         self.lambda_ctx = {}
@@ -195,6 +196,9 @@ class Emitter:
             for q, d in self._recnorm.items():
                 if q.startswith(key[:-1]) and q[len(key) - 1:] in (',void>',):
                     return d
+            hits = [d for q, d in self._recnorm.items() if q.endswith('::' + key[:-1] + ',void>')]
+            if len(hits) == 1:
+                return hits[0]
         for q, d in self.ast.records.items():
             if q.endswith('::' + name):
                 cands.append(d)
@@ -445,6 +449,13 @@ class Emitter:
             except Unsupported:
                 self.fn_text.pop(c, None)
                 self.cur = None
+                if fn['id'] in self.lambda_ctx:
+                    # the body of a closure that is only handed to opaque callees is not needed
+                    for k, v in self.lambda_ops.items():
+                        if c in v:
+                            v.remove(c)
+                    self.skipped_lambdas.append(c)
+                    continue
                 raise
 
     def owner_record(self, fn):
@@ -1091,9 +1102,11 @@ class Emitter:
             if fn is not None and has_body(fn):
                 return self.want(fn)
             return rd.get('name')
-        if k == 'VarDecl':
+        if k in ('VarDecl', 'VarTemplateSpecializationDecl'):
             vd = self.ast.byid.get(rid)
-            if vd is not None and vd.get('kind') == 'VarDecl':
+            if vd is not None and vd.get('kind') in ('VarDecl', 'VarTemplateSpecializationDecl'):
+                if '_qname' not in vd:
+                    vd['_qname'] = (vd.get('name') or 'var') + '_' + re.sub(r'[^A-Za-z0-9]+', '_', qt(vd))[-40:]
                 return self.global_var(vd)
             if self.lib:
                 x = self.lib.global_ref(self, n)
@@ -1127,7 +1140,7 @@ class Emitter:
             self.globals[c] = 'opq_t %s;' % c
             self.global_init.append('%s = %d;' % (c, self.opq_global_count))
             return c
-        init = [x for x in vd.get('inner', []) if 'kind' in x and not x['kind'].endswith('Comment')]
+        init = [x for x in vd.get('inner', []) if 'kind' in x and not x['kind'].endswith('Comment') and x['kind'] != 'TemplateArgument']
         prev = self.cur
         self.cur = FnCtx(self, vd, '__cxx_global_init')
         stm = self.init_lvalue(c, ti, init[0]) if init else []
@@ -1623,6 +1636,7 @@ class Emitter:
         lines = ['struct %s {' % sname]
         capmap = {}
         setup = []
+        pending_init = []
         t_ti = TI('rec', 'struct ' + sname, decl=rec)
         tmp = ctx.temp(t_ti)
         for i, (f, ini) in enumerate(zip(fields, inits)):
@@ -1638,13 +1652,35 @@ class Emitter:
             elif x.get('kind') == 'CXXThisExpr':
                 capmap['this'] = 'self->cap%d' % i
             else:
-                raise Unsupported('lambda capture with initialiser')
+                # init-capture [v = expr]: the captured variable is found in the body by its type
+                pending_init.append((i, fti, qt(f)))
             if fti.ref:
                 setup.append('%s.cap%d = %s' % (tmp, i, self.addr(ini)))
             elif ini.get('kind') == 'CXXThisExpr':
                 setup.append('%s.cap%d = self' % (tmp, i))
             else:
                 setup.append('%s.cap%d = %s' % (tmp, i, self.e(ini)))
+        if pending_init and body is not None:
+            declared = set()
+            refs = []
+
+            def scan(nn):
+                if nn.get('kind') == 'VarDecl':
+                    declared.add(nn.get('id'))
+                if nn.get('kind') == 'DeclRefExpr' and nn['referencedDecl'].get('kind') == 'VarDecl':
+                    refs.append(nn['referencedDecl'])
+                for cc in nn.get('inner', []):
+                    scan(cc)
+            scan(body)
+            for i, fti, ftype in pending_init:
+                for rdd in refs:
+                    if rdd['id'] in declared or rdd['id'] in ctx.locals or rdd['id'] in capmap:
+                        continue
+                    rt = (rdd.get('type') or {})
+                    rts = rt.get('desugaredQualType') or rt.get('qualType') or ''
+                    if strip_cv(rts) == strip_cv(ftype):
+                        capmap[rdd['id']] = 'self->cap%d' % i
+                        break
         if not fields:
             lines.append('  char _empty;')
         lines.append('};')
